@@ -32,14 +32,7 @@ Definition decode_word (w : N) : raw :=
     (if (off <? 32768)%N then Z.of_N off else Z.of_N off - 65536)
     (if (imm <? 2147483648)%N then Z.of_N imm else Z.of_N imm - 4294967296).
 
-(* A whole program packed into one number: a leading 1 (sentinel) followed by the instruction words, the FIRST
-   instruction in the least significant 64 bits. *)
-Fixpoint unpack_words (fuel : nat) (n : N) : list N :=
-  match fuel with
-  | O => []
-  | S f => if (n <=? 1)%N then [] else N.land n 18446744073709551615 :: unpack_words f (N.shiftr n 64)
-  end.
-Definition decode_prog (n : N) : list raw := map decode_word (unpack_words (N.size_nat n) n).
+Definition decode_prog (ws : list N) : list raw := map decode_word ws.
 
 (* ------------------------------------------------------------------ a positive-indexed trie (program text, memories) *)
 Inductive tree (A : Type) := Lf | Nd (l : tree A) (v : option A) (r : tree A).
